@@ -571,6 +571,47 @@ def encScn (x : Scn) : PB :=
         ("dynamic_obstacles", .rep (x.dynamic.map encDynamic)), ("environment_obstacles", .rep (x.env.map encEnvObs)),
         ("phantom_obstacles", .rep (x.phantom.map encPhantom)), ("planning_problems", .rep (x.pps.map encPP))]
 
+/-! ### the writer OBJECT: one `ProtobufFileWriter` used for several files
+
+  The writer keeps the message it builds in `self._commonroad_msg`.  `_write_header` / `_add_all_objects_from_scenario` /
+  `_add_all_planning_problems_from_planning_problem_set` `CopyFrom` into the singular fields and `append` to the repeated
+  ones (writer :97-170).  `write_to_file` (:185-212) and `write_scenario_to_file` (:214-235) both start from a fresh
+  `commonroad_pb2.CommonRoad()`; `fillScn` is what the three helpers do to WHATEVER message they are given, so that the
+  effect of the reset is a theorem (`C02_fill_fresh`, `C02_writer_history`) and its absence a witness (`C02_witness_no_reset`). -/
+
+/-- the three `_add…` helpers applied to message `m`; `withPps = false` is `write_scenario_to_file` (no planning problems) -/
+def fillScn (m : PB) (x : Scn) (withPps : Bool) : PB :=
+  .msg [("information", encInfo x.info), ("scenario_tags", .msg [("tags", encEnums "Tag" x.tags)]),
+        ("location", encLoc x.location),
+        ("lanelets", .rep ((m.get "lanelets").items ++ x.lanelets.map encLanelet)),
+        ("traffic_signs", .rep ((m.get "traffic_signs").items ++ x.signs.map encSign)),
+        ("traffic_lights", .rep ((m.get "traffic_lights").items ++ x.lights.map encLight)),
+        ("intersections", .rep ((m.get "intersections").items ++ x.intersections.map encInter)),
+        ("static_obstacles", .rep ((m.get "static_obstacles").items ++ x.static.map encStatic)),
+        ("dynamic_obstacles", .rep ((m.get "dynamic_obstacles").items ++ x.dynamic.map encDynamic)),
+        ("environment_obstacles", .rep ((m.get "environment_obstacles").items ++ x.env.map encEnvObs)),
+        ("phantom_obstacles", .rep ((m.get "phantom_obstacles").items ++ x.phantom.map encPhantom)),
+        ("planning_problems", .rep ((m.get "planning_problems").items ++ (if withPps then x.pps.map encPP else [])))]
+
+/-- what a scenario-only file holds: the scenario, no planning problem -/
+def Scn.only (x : Scn) (withPps : Bool) : Scn := if withPps then x else { x with pps := [] }
+
+/-- a writer object: the message left behind by its last write -/
+structure Wr where
+  msg : PB
+
+def Wr.new : Wr := ⟨.msg []⟩
+
+/-- one `write_to_file` (`withPps`) / `write_scenario_to_file` call: the message is reset, filled, serialised and kept -/
+def Wr.write (_w : Wr) (x : Scn) (withPps : Bool) : PB × Wr :=
+  let m := fillScn (.msg []) x withPps
+  (m, ⟨m⟩)
+
+/-- a history of calls on one writer object; the files it produces, in order -/
+def Wr.run (w : Wr) (x : Scn) : List Bool → List PB
+  | [] => []
+  | b :: r => (w.write x b).1 :: Wr.run (w.write x b).2 x r
+
 /-! ### what makes the writer raise -/
 
 /-- enum tables of the shipped .proto files: enum type ↦ member names (sent by the harness from the `*_pb2` modules). -/
